@@ -470,8 +470,8 @@ Proof.
     subst b'. assert (eff = resolve (e_cpus (s_env s)) n) as ->.
     { unfold configure in E. cbn [bkind blevel eff_model] in E. unfold pool_eff in E.
       destruct (n =? 0); [discriminate|]. destruct (e_mp_none (s_env s)); cbn [bind] in E.
-      - inversion E; subst. lia.
-      - destruct (resolve (e_cpus (s_env s)) n =? 1); cbn in E; inversion E; reflexivity. }
+      - cbn in E. inversion E.
+      - destruct (resolve (e_cpus (s_env s)) n =? 1) eqn:E1; cbn in E; inversion E; reflexivity. }
     unfold worker_site. cbn [bkind]. rewrite max_conc_le1; [lia|].
     apply all_default_Forall; [|assumption]. apply Forall_forall. intros c _ Hdc. apply conc_seq; [|assumption].
     eexists; cbn [s_ctx]; split; [reflexivity|]. rewrite nested_level_ge1 by assumption. reflexivity.
@@ -609,4 +609,36 @@ Proof.
   split; [exact nested_level0|]. split; [exact nested_level_ge1|]. split; [exact procs_below_worker|].
   split; [|exact procs_top_frontier].
   intros cpus n children Hn Hr Hd. apply procs_top_parallel; assumption.
+Qed.
+
+Lemma C15_nested_backend_regenerated_holds : forall b a,
+  base_get_nested_backend (blevel b) = Ok (nested_backend b, None) /\
+  seq_get_nested_backend a = Ok a /\
+  (blevel b = 0 -> base_get_nested_backend (blevel b) = Ok ({| bkind := KThr; blevel := 1 |}, None)) /\
+  (1 <= blevel b -> base_get_nested_backend (blevel b) = Ok ({| bkind := KSeq; blevel := blevel b + 1 |}, None)).
+Proof.
+  intros [k l] a. pose proof (gen_nested_eq {| bkind := k; blevel := l |}) as G. cbn [blevel] in *.
+  split; [exact G|]. split; [reflexivity|]. split; intros H.
+  - subst. reflexivity.
+  - rewrite G, nested_level_ge1 by assumption. reflexivity.
+Qed.
+
+Lemma C15_configure_regenerated_holds : forall k e level n b,
+  configure_gen k e level n =
+    match eff_gen k e level n with
+    | Raise x => Raise x
+    | Ok v => match k with KSeq => Ok v | _ => if v =? 1 then Raise (OtherError 1) else Ok v end
+    end /\
+  initialize_backend_gen b e n = configure b e n.
+Proof. intros. split; [rewrite eff_gen_eq_model; apply configure_gen_eq | apply initialize_backend_gen_eq]. Qed.
+
+Lemma C15_nesting_concurrency_holds :
+  (forall c s, seq_site s -> default_tree c = true -> conc s c <= 1) /\
+  (forall c s, thr_site s -> default_tree c = true -> conc s c <= maxres (e_cpus (s_env s)) c) /\
+  (forall c cpus, default_tree c = true -> conc (top_site cpus) c <= maxres cpus c * maxres cpus c) /\
+  (forall cpus n children, n <> 0 -> resolve cpus n <> 1 -> default_tree (Call None n children) = true ->
+     conc (top_site cpus) (Call None n children) <= resolve cpus n * max_maxres cpus children).
+Proof.
+  split; [exact conc_seq|]. split; [exact conc_thr|]. split; [exact conc_top|].
+  intros cpus n children Hn Hr Hd. apply conc_top_parallel; assumption.
 Qed.
